@@ -1023,6 +1023,33 @@ class Ctx:
             return SR(z3.If(c.e, ta, tb), n)
         return a if c else b
 
+    # ------------------------------------------------------------------ oracle-side math usable in both modes
+    def _sr(self, x):
+        return x if isinstance(x, SR) else SR(_frac(x))
+
+    def sqrt(self, x):
+        if self.mode == "sym":
+            return float("nan") if _is_nan_float(x) else self.usqrt(self._sr(x))
+        return math.sqrt(x) if x >= 0 else float("nan")
+
+    def atan2(self, y, x):
+        if self.mode == "sym":
+            return self.uatan2(y, x)
+        return math.atan2(y, x)
+
+    def cos(self, x):
+        if self.mode == "sym":
+            return self.ucos(self._sr(x))
+        return math.cos(x)
+
+    def sin(self, x):
+        if self.mode == "sym":
+            return self.usin(self._sr(x))
+        return math.sin(x)
+
+    def abs(self, x):
+        return abs(x)
+
     # ------------------------------------------------------------------ transcendental models
     def _fresh(self, base, sort="real"):
         self.fresh += 1
@@ -1166,7 +1193,7 @@ class Ctx:
         key = ("atan2", ye.get_id(), xe.get_id())
         if key not in self._uf_terms:
             self._uf_terms[key] = t
-            pi_lo, pi_hi = _rv(Fraction(math.pi)), _rv(Fraction(math.nextafter(math.pi, 4)))
+            pi_hi = _rv(Fraction(math.pi))  # the float result of atan2 never exceeds the double nearest to pi
             self.solver.add(t >= -pi_hi, t <= pi_hi,
                             z3.Implies(z3.And(ye == 0, xe > 0), t == 0),
                             z3.Implies(ye > 0, t > 0), z3.Implies(ye < 0, t < 0),
@@ -1245,6 +1272,11 @@ class Ctx:
                 self._obs_model_failed = True
                 return
             m = self.solver.model()
+            # a model that puts a symbolic denominator to zero says nothing about the float run (inf/nan there)
+            for dc in self.defined:
+                if not z3.is_true(m.eval(dc, model_completion=True)):
+                    self._obs_model_failed = True
+                    return
             md = {}
             for nm, sv in self.inputs.items():
                 md[nm] = eval_model(m, sv)
